@@ -79,6 +79,9 @@ theorem nodeStr_markup (sty : Styles) (st : MSt) (q : Str) (a : Attrs) (kids : L
   obtain ⟨h1, h2, h3, h4, h5⟩ := h
   rw [nodeStr.eq_def]
   simp [h1, h2, h3, h4, h5, hm]
+  cases kidsStr sty st kids with
+  | error e => rfl
+  | ok v => rfl
 
 theorem nodeStr_leaf (sty : Styles) (st : MSt) (q : Str) (a : Attrs) (kids : List Node) (m : MName) (h : notBlock q)
     (hm : moinMethod q = some m) (hl : leafMethod m = true) : ∃ t, nodeStr sty st (.elem q a kids) = .ok (t, st) := by
@@ -117,5 +120,59 @@ theorem kidsStr_inline (sty : Styles) (st : MSt) (l : List Node) (h : MInL l) :
     exact List.Sublist.append hs hs2
 termination_by sizeOf l
 end
+
+/-! ### paragraphs and the whole document -/
+
+/-- paragraph attributes the model converts without error: no outline level, or a decimal one -/
+def ParaOK (a : Attrs) : Prop := getAttr a kOutline = [] ∨ ∃ n, pyInt (getAttr a kOutline) = some n
+
+theorem nonWs_nl (x : Str) : nonWs ([10] ++ x) = nonWs x := by simp [nonWs, isSpace]
+
+theorem sub_mid (pre x post : Str) : x.Sublist (pre ++ x ++ post) :=
+  (List.sublist_append_right pre x).trans (List.sublist_append_left _ post)
+
+theorem nonWs_paraText (pp : ParaProps) (q : Str) (st : MSt) (markup : Str) : nonWs (paraText pp q st markup) = nonWs markup := by
+  unfold paraText
+  have h1 : nonWs (if (!pp.code) = true then pyStrip markup else markup) = nonWs markup := by
+    split
+    · exact nonWs_strip markup
+    · rfl
+  simp only []
+  split
+  · rw [nonWs_nl, h1]
+  · exact h1
+
+theorem paraPost_ok (sty : Styles) (q : Str) (a : Attrs) (markup : Str) (st : MSt) (h : ParaOK a) :
+    ∃ r st', paraPost sty q a markup st = .ok (r, st') ∧ st'.foot = st.foot ∧ (nonWs markup).Sublist (nonWs r) := by
+  unfold paraPost
+  simp only []
+  generalize hpp : (sty.para.lookup (getAttr a kStyleName)).getD {} = pp
+  have h2 := nonWs_paraText pp q st markup
+  generalize paraText pp q st markup = t2 at h2
+  have key : ∀ pre post : Str, (nonWs markup).Sublist (nonWs (pre ++ t2 ++ post)) := by
+    intro pre post; rw [← h2]; exact sublist_nonWs (sub_mid pre t2 post)
+  have key0 : (nonWs markup).Sublist (nonWs t2) := by rw [h2]; exact List.Sublist.refl _
+  have keyp : ∀ pre : Str, (nonWs markup).Sublist (nonWs (pre ++ t2)) := by
+    intro pre; have := key pre []; simpa using this
+  have keyi : (nonWs markup).Sublist (nonWs (if pp.indented = true then [32, 32] ++ t2 else t2)) := by
+    split
+    · exact keyp _
+    · exact key0
+  split
+  · exact ⟨_, _, rfl, rfl, key _ _⟩
+  · split
+    · rename_i hol
+      rcases h with h | ⟨n, hn⟩
+      · simp [h] at hol
+      · simp only [hn]
+        generalize (if st.hasTitle = true then n + 1 else n) = level
+        split
+        · refine ⟨_, _, rfl, rfl, ?_⟩
+          have := key (List.replicate level 61 ++ [32]) ([32] ++ List.replicate level 61 ++ [10])
+          simpa [List.append_assoc] using this
+        · exact ⟨_, _, rfl, rfl, keyi⟩
+    · split
+      · exact ⟨_, _, rfl, rfl, key _ _⟩
+      · exact ⟨_, _, rfl, rfl, keyi⟩
 
 end OdfModel.Moin
